@@ -49,7 +49,8 @@ def int_to_base64(num: int) -> str:
 
 def json_b64encode(text: Any) -> bytes:
     if isinstance(text, dict):
-        text = json.dumps(text, ensure_ascii=True, separators=(",", ":"))
+        # NaN and Infinity are not JSON (RFC 8259)
+        text = json.dumps(text, ensure_ascii=True, separators=(",", ":"), allow_nan=False)
     return urlsafe_b64encode(to_bytes(text, "ascii"))
 
 
